@@ -403,10 +403,11 @@ func init() {
 			var lens []int
 			if v.Net == "udp" {
 				lens = []int{len(stream)}
-				for _, n := range []int{0, 1, 2, 11, 12, len(stream) - 1} {
-					if n >= 0 && n < len(stream) {
-						lens = append([]int{n}, lens...)
-					}
+				for n := 0; n < len(stream) && n <= 96; n++ {
+					lens = append([]int{n}, lens...)
+				}
+				if len(stream) > 1 {
+					lens = append([]int{len(stream) - 1}, lens...)
 				}
 				// datagrams: evaluate truncated ones too (robustness), in increasing length
 				seen := map[int]bool{}
